@@ -52,7 +52,9 @@ pub fn check_program(ctx: &mut Ctx, src: &str, holes: bool) {
         V::Type => matches!(vhead, crate::eterm::E::Type | crate::eterm::E::Int | crate::eterm::E::Bool | crate::eterm::E::Pi(..)),
         _ => true, // neutral reported types (type variables cannot occur in closed programs; holes can)
     };
-    let blame_d3 = d3_applicable(holes, &obs);
+    // D3 (a) also strikes at run time: the evaluator's substitution replaces every occurrence of
+    // an unresolved hole by its own fresh cell, so one unknown becomes several in the value
+    let blame_d3 = d3_applicable(holes, &obs) || (holes && obs.eval_open_unresolved > 0 && value.zonk().has_unsolved_hole());
     if !shape_ok {
         let key = if blame_d3 { D3_KEY.to_owned() } else { format!("value-shape:{th}/{vh}") };
         viol(ctx, &key, &format!("the program has type `{}` but evaluates to `{}`", clip(&obs.ty_text, 200), clip(text, 200)), src, &obs);
@@ -85,7 +87,7 @@ impl Prop for C04P {
     }
     fn plan(&self, tier: Tier, _seed: u64) -> Plan {
         let mut p = Plan::new(
-            vec![sec("pinned", 200), sec("explicit-programs", tier.pick(15_000, 300_000)), sec("inferred-programs", tier.pick(10_000, 200_000))],
+            vec![sec("pinned", 200), sec("explicit-programs", tier.pick(45_000, 300_000)), sec("inferred-programs", tier.pick(30_000, 200_000))],
             "accepted generated programs (explicit and inferred; result types int, bool, type, function and polymorphic function types, types computed by type-level functions/conditionals/definitions) and the corpus are run; when a value is produced its head is compared with the head of the reported type and the value term is type checked by the reference checker against the reported type; non-trivial = distinct program that produced a value",
         );
         p.assumptions = vec!["R-core is the typing reference (DESIGN.md A.5/A.6); reference fuel exhaustion is inconclusive".into()];
